@@ -1,196 +1,9 @@
 ------------------------------- MODULE Trace_Vfs -------------------------------
-(* Validator of implementation transitions against the reference filesystem (C01, C03, C06, C09, C10,
-   C11, C13 and the spelling half of C05).  One record = one pre-state with the calls issued from it:
-     [k |-> "g", be, route, pre |-> REP, steps |-> << [c |-> CALL, r |-> RES, same |-> "t"|"f", post |-> REP or <<>>] .. >>]
-   For every step: the argument strings are resolved with PathLex (as abs() documents), the reference operator
-   is applied to the abstraction of the logged pre-state, and result + abstraction of the logged post-state are
-   compared; the representation invariant (C03) is evaluated on every logged post-state. *)
-EXTENDS MemfsRep, Tally, Json, IOUtils
-PL == INSTANCE PathLex
-
+(* Validator of implementation transitions of the in-memory backend against the reference filesystem
+   (C01, C03, C06, C09, C10, C11, C13 and the spelling half of C05): group records (one pre-state, many
+   calls) and chain records (histories).  The judging operators live in VfsJudge. *)
+EXTENDS VfsJudge
 Recs == ndJsonDeserialize(IOEnv.TRACE)
-EnvRec == JsonDeserialize(IOEnv.PENV)
-EnvNames == {EnvRec.vars[i].n : i \in 1..Len(EnvRec.vars)}
-EnvF == [n \in EnvNames |-> EnvRec.vars[CHOOSE i \in 1..Len(EnvRec.vars) : EnvRec.vars[i].n = n].v]
-Own == [uid |-> 1000, gid |-> 1000]          \* Memfs gives every new entry 1000:1000
-
-RECURSIVE Str(_)
-Str(cs) == IF cs = <<>> THEN "" ELSE cs[1] \o Str(Tail(cs))
-StrSeq(segs) == [i \in 1..Len(segs) |-> Str(segs[i])]
-RECURSIVE WalkC(_, _)
-WalkC(cur, rest) == IF rest # <<>> /\ rest[1] = PL!DotDot
-                    THEN (IF cur = <<>> THEN [o |-> "Path::ParentNotFound", p |-> <<>>] ELSE WalkC(Front(cur), Tail(rest)))
-                    ELSE IF rest # <<>> /\ rest[1] = PL!Dot THEN WalkC(cur, Tail(rest))
-                    ELSE [o |-> "ok", p |-> cur \o StrSeq(rest)]
-\* abs() at component level (PathLex!Abs with the cwd given as components)
-Resolve(cwd, raw) ==
-   IF raw = <<>> THEN [o |-> "Path::Empty", p |-> <<>>] ELSE
-   LET e == PL!Expand(EnvF, raw) IN IF e.o # "ok" THEN [o |-> e.o, p |-> <<>>] ELSE
-   LET c == PL!Clean(PL!TrimProtocol(e.v)) IN
-   IF PL!IsAbs(c) THEN [o |-> "ok", p |-> StrSeq(PL!Segs(c))] ELSE WalkC(cwd, PL!Segs(c))
-\* arguments the harness marked as syntactically canonical absolute paths come with their components
-ResolveA(st, c) == IF c.aok = "t" THEN [o |-> "ok", p |-> c.ac] ELSE Resolve(st.cwd, c.a)
-ResolveB(st, c) == IF c.bok = "t" THEN [o |-> "ok", p |-> c.bc] ELSE Resolve(st.cwd, c.b)
-\* lexical join of relative segments onto an absolute directory, cleaned: ".." pops (and is dropped at the root)
-RECURSIVE JoinClean(_, _)
-JoinClean(cur, rest) == IF rest = <<>> THEN cur
-                        ELSE IF rest[1] = PL!DotDot THEN JoinClean(IF cur = <<>> THEN cur ELSE Front(cur), Tail(rest))
-                        ELSE IF rest[1] = PL!Dot THEN JoinClean(cur, Tail(rest))
-                        ELSE JoinClean(Append(cur, Str(rest[1])), Tail(rest))
-Ambiguous(raw) == raw # <<>> /\ PL!AmbiguousExpand(EnvF, raw)
-
-HasFlag(c, x) == \E i \in 1..Len(c.f) : c.f[i] = x
-TwoPath == {"move_p", "copy", "copy_b", "symlink"}
-BoolQ == {"exists", "is_dir", "is_file", "is_symlink", "is_symlink_dir", "is_symlink_file", "is_exec", "is_readonly"}
-ListQ == {"paths", "dirs", "files", "all_paths", "all_dirs", "all_files"}
-
-\* ---- expected outcome of a call on an abstract state ----
-ArgErr(st, e) == R(st, RErr(e))                                   \* abs() failed: the call fails, nothing changes
-EntryRes(st, p) == LET fs == st.fs IN
-   IF ~Exists(fs, p) THEN RErr("Path::DoesNotExist") ELSE ROk(p)  \* value judged by EntryOK
-QueryRes(st, c, p) == LET fs == st.fs  op == c.op IN
-   CASE op = "exists" -> ROk(Q_exists(st, p))
-     [] op = "is_dir" -> ROk(Q_is_dir(st, p))
-     [] op = "is_file" -> ROk(Q_is_file(st, p))
-     [] op = "is_symlink" -> ROk(Q_is_symlink(st, p))
-     [] op = "is_symlink_dir" -> IF LinkKindSettled(fs, p) THEN ROk(Q_is_symlink_dir(st, p)) ELSE RAny
-     [] op = "is_symlink_file" -> IF LinkKindSettled(fs, p) THEN ROk(Q_is_symlink_file(st, p)) ELSE RAny
-     [] op = "is_exec" -> ROk(BoolV(Exists(fs, p) /\ IsExecMode(fs[p].mode)))
-     [] op = "is_readonly" -> ROk(BoolV(Exists(fs, p) /\ IsReadonlyMode(fs[p].mode)))
-     [] op = "mode" -> IF Exists(fs, p) THEN ROk(<<fs[p].mode>>) ELSE RErr("Path::DoesNotExist")
-     [] op = "uid" -> IF ~Exists(fs, p) THEN RErr("Path::DoesNotExist") ELSE IF IsLink(fs, p) THEN RAny ELSE ROk(<<fs[p].uid>>)
-     [] op = "gid" -> IF ~Exists(fs, p) THEN RErr("Path::DoesNotExist") ELSE IF IsLink(fs, p) THEN RAny ELSE ROk(<<fs[p].gid>>)
-     [] op = "owner" -> IF ~Exists(fs, p) THEN RErr("Path::DoesNotExist") ELSE IF IsLink(fs, p) THEN RAny ELSE ROk(<<fs[p].uid, fs[p].gid>>)
-     [] op = "readlink_abs" -> IF IsLink(fs, p) THEN ROk(PV(fs[p].t)) ELSE RErrAny
-     [] op = "readlink" -> IF ~IsLink(fs, p) THEN RErrAny
-                           ELSE IF fs[p].t = Parent(p) THEN RAny        \* D11: relative(p, p) is documented to return p itself
-                           ELSE ROk([p |-> RelC(fs[p].t, Parent(p)), c |-> "t", abs |-> "f"])
-     [] op = "abs" -> ROk(PV(p))
-     [] op = "entry" -> EntryRes(st, p)
-     [] op \in ListQ -> IF IsDir(fs, p) THEN ROk(Listing(fs, p, op)) ELSE RErrAny
-
-CopyOpts(c) == [dm |-> IF HasFlag(c, "a") \/ HasFlag(c, "d") THEN c.m ELSE 0,
-                fm |-> IF HasFlag(c, "a") \/ HasFlag(c, "f") THEN c.m ELSE 0,
-                follow |-> HasFlag(c, "F")]
-ChmodOpts(c) == [dm |-> IF HasFlag(c, "a") \/ HasFlag(c, "d") THEN c.m ELSE 0,
-                 fm |-> IF HasFlag(c, "a") THEN c.m ELSE IF HasFlag(c, "f") THEN c.n ELSE 0,
-                 sym |-> IF HasFlag(c, "s") THEN c.s ELSE IF HasFlag(c, "o") THEN <<"f", ":", "a", "+", "r", ",", "f", ":", "a", "-", "w", "x">>
-                         ELSE IF HasFlag(c, "S") THEN <<"a", ":", "g", "o", "-", "r", "w", "x">> ELSE <<>>,
-                 recursive |-> ~HasFlag(c, "R"), follow |-> HasFlag(c, "F")]
-ChownOpts(c) == [setu |-> HasFlag(c, "u") \/ HasFlag(c, "o"), setg |-> HasFlag(c, "g") \/ HasFlag(c, "o"), uid |-> c.m, gid |-> c.n,
-                 recursive |-> ~HasFlag(c, "R"), follow |-> HasFlag(c, "F")]
-LinesData(c) == JoinLines(c.ls)
-
-Expected(st, c) ==
-  LET op == c.op IN
-  IF (op \in {"write_lines", "append_lines"} /\ LinesData(c) = <<>>) \/ (op = "append_line" /\ (c.ls = <<>> \/ c.ls[1] = <<>>))
-  THEN R(st, ROk(Unit))                                            \* D2: nothing to write - nothing happens, the path is not even looked at
-  ELSE IF op = "cwd" THEN R(st, ROk(PV(st.cwd)))
-  ELSE IF op = "root" THEN R(st, ROk(PV(Root)))
-  ELSE LET ra == ResolveA(st, c) IN
-  IF ra.o # "ok" THEN (IF op \in BoolQ THEN R(st, ROk(BoolV(FALSE)))
-                       ELSE IF op \in ListQ THEN R(st, RErrAny)       \* listings document no error kinds
-                       ELSE ArgErr(st, ra.o))
-  ELSE LET p == ra.p IN
-  IF op \in TwoPath THEN
-     (IF op = "symlink" THEN
-         \* target: relative spellings are taken relative to the directory of the link
-         \* (a spelling with ~, $ or a scheme is only settled for absolute targets: otherwise not judged)
-         IF p = Root THEN R(st, RErrAny)
-         ELSE IF c.b # <<>> /\ ~PL!IsAbs(c.b) THEN
-              (IF \E i \in 1..Len(c.b) : c.b[i] \in {"~", "$", ":"} THEN [st |-> st, res |-> RAny, alt |-> {}, partial |-> TRUE, paired |-> FALSE]
-               ELSE Op_symlink(st, Own, p, JoinClean(Parent(p), PL!Segs(c.b))))
-         ELSE LET rb == ResolveB(st, c) IN
-              IF rb.o # "ok" THEN ArgErr(st, rb.o) ELSE Op_symlink(st, Own, p, rb.p)
-      ELSE LET rb == ResolveB(st, c) IN
-         IF rb.o # "ok" THEN ArgErr(st, rb.o)
-         ELSE IF op = "move_p" THEN Op_move_p(st, p, rb.p)
-         ELSE IF op = "copy" THEN Op_copy_b(st, Own, p, rb.p, [dm |-> 0, fm |-> 0, follow |-> FALSE])
-         ELSE Op_copy_b(st, Own, p, rb.p, CopyOpts(c)))
-  ELSE CASE op = "mkfile" -> Op_mkfile(st, Own, p)
-         [] op = "mkfile_m" -> Op_mkfile_m(st, Own, p, c.m)
-         [] op = "mkdir_p" -> Op_mkdir_p(st, Own, p)
-         [] op = "mkdir_m" -> Op_mkdir_m(st, Own, p, DirType + Perm(c.m))
-         [] op = "write_all" -> Op_write_all(st, Own, p, c.d)
-         [] op = "append_all" -> Op_append_all(st, Own, p, c.d)
-         [] op = "write_lines" -> IF LinesData(c) = <<>> THEN R(st, ROk(Unit)) ELSE Op_write_all(st, Own, p, LinesData(c) \o <<NL>>)
-         [] op = "append_lines" -> IF LinesData(c) = <<>> THEN R(st, ROk(Unit)) ELSE Op_append_all(st, Own, p, LinesData(c) \o <<NL>>)
-         [] op = "append_line" -> IF c.ls = <<>> \/ c.ls[1] = <<>> THEN R(st, ROk(Unit)) ELSE Op_append_all(st, Own, p, c.ls[1] \o <<NL>>)
-         [] op = "remove" -> Op_remove(st, p)
-         [] op = "remove_all" -> Op_remove_all(st, p)
-         [] op = "set_cwd" -> LET o == Op_set_cwd(st, p) IN IF o.res.o = "ok" THEN [o EXCEPT !.res = ROk(PV(p))] ELSE o
-         [] op = "chmod" -> Op_chmod_b(st, p, [dm |-> c.m, fm |-> c.m, sym |-> <<>>, recursive |-> TRUE, follow |-> FALSE])
-         [] op = "chmod_b" -> Op_chmod_b(st, p, ChmodOpts(c))
-         [] op = "chown" -> Op_chown_b(st, p, [setu |-> TRUE, setg |-> TRUE, uid |-> c.m, gid |-> c.n, recursive |-> TRUE, follow |-> FALSE])
-         [] op = "chown_b" -> Op_chown_b(st, p, ChownOpts(c))
-         [] op \in {"read", "read_all", "read_lines"} /\ IsLink(st.fs, p) -> R(st, RAny)     \* D10: Memfs refuses, the real filesystem follows
-         [] op = "read" -> Op_read(st, p)
-         [] op = "read_all" -> Op_read_all(st, p)
-         [] op = "read_lines" -> Op_read_lines(st, p)
-         [] OTHER -> R(st, QueryRes(st, c, p))
-
-\* ---- comparison of a logged result with the expected one ----
-PathRes == {"mkfile", "mkfile_m", "mkdir_p", "mkdir_m", "symlink"}
-EntryOK(st, p, v) == LET fs == st.fs  n == fs[p]  e == v.e IN
-   /\ e.path = PV(p) /\ e.link = TF(n.k = "link") /\ e.mode = n.mode /\ e.following = "f" /\ e.same_bufs = "t"
-   /\ e.wrap = "t" /\ v.f1.wrap = "t" /\ v.f2.wrap = "t"          \* C13: every VfsEntry accessor = the wrapped entry's accessor
-   /\ e.exec = TF(IsExecMode(n.mode)) /\ e.ro = TF(IsReadonlyMode(n.mode))
-   /\ (LinkKindSettled(fs, p) => /\ e.dir = TF(n.k = "dir" \/ n.tk = "dir") /\ e.file = TF(n.k = "file" \/ n.tk = "file")
-                                 /\ e.ldir = TF(n.k = "link" /\ n.tk = "dir") /\ e.lfile = TF(n.k = "link" /\ n.tk = "file"))
-   /\ v.nf = e
-   /\ IF n.k = "link"
-      THEN /\ e.alt = PV(n.t) /\ (n.t = Parent(p) \/ e.rel = [p |-> RelC(n.t, Parent(p)), c |-> "t", abs |-> "f"])
-           /\ v.f1.path = PV(n.t) /\ v.f1.alt = PV(p) /\ v.f1.following = "t"       \* swapped exactly once
-           /\ v.f2 = v.f1
-      ELSE v.f1 = e /\ v.f2 = e
-ValMatch(st, c, ex, got) ==
-   IF c.op \in PathRes THEN got = PV(ex)
-   ELSE IF c.op \in ListQ THEN /\ got.canon = "t" /\ got.sorted = "t"
-                               /\ {got.ps[i] : i \in 1..Len(got.ps)} = ex /\ Len(got.ps) = Cardinality(ex)
-   ELSE IF c.op = "entry" THEN EntryOK(st, ex, got)
-   ELSE got = ex
-ResMatch(st, c, ex, got) ==
-   IF got.o = "panic" THEN FALSE
-   ELSE IF ex.o = "?" THEN TRUE
-   ELSE IF ex.o = "*" THEN got.o # "ok"
-   ELSE IF ex.o = "ok" THEN got.o = "ok" /\ ValMatch(st, c, ex.v, got.v)
-   ELSE got.o = ex.o
-
-\* ---- finding signature ----
-KindClass(fs, p) == IF p = Root THEN "root" ELSE IF ~Exists(fs, p) THEN
-                        (IF ~Exists(fs, Parent(p)) THEN "none(noparent)" ELSE IF IsDir(fs, Parent(p)) THEN "none" ELSE "none(parent=" \o fs[Parent(p)].k \o ")")
-                    ELSE IF fs[p].k = "dir" THEN (IF Children(fs, p) = {} THEN "dir(empty)" ELSE "dir(nonempty)")
-                    ELSE IF fs[p].k = "file" THEN "file" ELSE "link->" \o fs[p].tk
-ArgClass(st, r) == IF r.o # "ok" THEN "unresolvable:" \o r.o ELSE KindClass(st.fs, r.p)
-RelClass(st, c) == LET a == ResolveA(st, c)  b == ResolveB(st, c) IN
-   IF a.o # "ok" \/ b.o # "ok" THEN "-" ELSE IF a.p = b.p THEN "same" ELSE IF IsPrefix(a.p, b.p) THEN "dst-in-src" ELSE IF IsPrefix(b.p, a.p) THEN "src-in-dst" ELSE "other"
-ExpClass(ex) == IF ex.o = "?" THEN "Any" ELSE IF ex.o = "*" THEN "Err" ELSE ex.o
-Sig(st, c, got, ex, what) == <<"BAD", c.op, ArgClass(st, ResolveA(st, c)), IF c.op \in TwoPath THEN ArgClass(st, ResolveB(st, c)) ELSE "-",
-                               IF c.op \in TwoPath THEN RelClass(st, c) ELSE "-", "got:" \o got.o, "exp:" \o ExpClass(ex), what>>
-
-\* modes of pre-existing files below a copy destination are not settled (Unconstrained): blank them on both sides
-StateOK(o, pre, post) ==
-   \/ o.partial
-   \/ (IF o.paired THEN FALSE ELSE (StEq(o.st, post) \/ \E a \in o.alt : StEq(a, post)))
-PairedOK(o, pre, post, got) == IF got.o = "ok" THEN StEq(o.st, post) ELSE post = pre
-
-\* with follow a traversal may stop with LinkLooping as soon as a followed link leads to a directory: admissible (C08 decides exactly when)
-LoopAdmissible(st, c) == /\ c.op \in {"chmod_b", "chown_b"} /\ HasFlag(c, "F")
-                         /\ LET ra == ResolveA(st, c) IN ra.o = "ok" /\ Exists(st.fs, ra.p)
-                              /\ \E x \in Visit(st.fs, ra.p, ~HasFlag(c, "R"), TRUE) : IsLink(st.fs, x) /\ TK(st.fs, st.fs[x].t) = "dir"
-JudgeStep(pre, s) ==
-   LET c == s.c
-       viol == IF s.same = "t" THEN "-" ELSE RepViolation(s.post)
-   IN IF (c.aok # "t" /\ Ambiguous(c.a)) \/ (c.bok # "t" /\ Ambiguous(c.b)) THEN << <<"skip", "ambiguous-expansion">> >>
-      ELSE LET o == Expected(pre, c) IN
-      IF s.r.o = "Path::LinkLooping" /\ LoopAdmissible(pre, c) THEN << <<"ok", c.op, "linklooping">> >>
-      ELSE IF s.r.o = "panic" THEN << Sig(pre, c, s.r, o.res, "panic") >>
-      ELSE IF viol # "-" THEN << Sig(pre, c, s.r, o.res, "ILLFORMED:" \o viol) >>
-      ELSE LET post == IF s.same = "t" THEN pre ELSE AbsOf(s.post)
-               resOK == ResMatch(pre, c, o.res, s.r)
-               stOK == IF o.paired THEN PairedOK(o, pre, post, s.r) ELSE StateOK(o, pre, post)
-           IN IF resOK /\ stOK THEN << <<"ok", c.op, IF post # pre \/ s.r.o # "ok" THEN "nt" ELSE "tr">> >>
-              ELSE << Sig(pre, c, s.r, o.res, IF ~resOK /\ ~stOK THEN "result+state" ELSE IF ~resOK THEN "result" ELSE "state") >>
 
 \* tally update remembering group index * 1000 + step index of the first example of each class
 RECURSIVE TallySteps(_, _, _, _, _)
